@@ -22,13 +22,13 @@ STUB = ["user code (generated)", "stdout (sink)"]
 ASSUMPTIONS = ["soft bodies and guards use shapes whose lowering C01 validates",
                "ties the property leaves open (softs of different class blocks) are accepted in any order"]
 REQUIRED_NONZERO = {"*": ["judged_calls", "conflict_calls", "guarded_softs", "inline_softs",
-                          "repeat_calls"]}
+                          "repeat_calls", "hard_unsat_calls"]}
 
 
 def budget(tier):
     if tier == "thorough":
         return {"runs": 4000, "wall": 3000}
-    return {"runs": 400, "wall": 600}
+    return {"runs": 1200, "wall": 600}
 
 
 def soft_stmt(g, fields):
@@ -84,8 +84,16 @@ def generate(seed, tier):
     for _ in range(orng.randint(6, 14 if tier == "quick" else 30)):
         p = orng.randrange(n_parties)
         r = orng.random()
-        if r < 0.45:
+        if r < 0.4:
             ops.append({"op": "randomize", "p": p})
+        elif r < 0.5:
+            # a call that fails (contradictory hard inline block) - per-call soft state must
+            # not survive it
+            f = fields[0]
+            fe = {"t": "f", "p": f["_p"]}
+            ops.append({"op": "rw", "p": p, "fault": "force_unsat",
+                        "inline": progs.strip(mixed_stmts(go, orng, fields, 1, 1, nest=0)) +
+                        [progs.EXPR(progs.BIN("<", fe, progs.LIT(1))), progs.EXPR(progs.BIN(">", fe, progs.LIT(1)))]})
         elif r < 0.8:
             ops.append({"op": "rw", "p": p,
                         "inline": progs.strip(mixed_stmts(go, orng, fields, 1, 2, nest=1))})
